@@ -250,7 +250,7 @@ def cases():
             out.append({'label': '%s/k%d' % (m.name, k), 'mesh': m, 'fields': fsets[(i + k) % 3],
                         'layout': families.scatter_layouts(m, rnd, max_files=2), 'geom': (i + k) % 3})
     n = 0
-    while n < (12 if tier == 'quick' else 400):
+    while n < (12 if tier == 'quick' else 1200):
         m = families.random_mesh(rnd, 3, max_levels=3, max_boxes=4, max_extent=6, patches=rnd.choice([1, 2, 2]))
         # the property speaks of boxes aligned on an even blocking factor, on every level including the coarsest
         if len(m.boxes) < 2 or any(lo % 2 or (hi + 1) % 2 for lv in m.boxes for blo, bhi in lv for lo, hi in zip(blo, bhi)):
